@@ -36,6 +36,16 @@ type plainS struct {
 	A int32 `frugal:"1,default,i32"`
 }
 
+// recursive container types: Thrift cannot express them (no struct breaks the cycle)
+type (
+	recMap     map[string]recMap
+	recPtrMap  map[string]*recPtrMapS
+	recPtrMapS struct {
+		M recPtrMap `frugal:"1,default"`
+	}
+	recKeyless map[int32]map[string]recKeyless
+)
+
 func one(t reflect.Type, tag string) func() []invField {
 	return func() []invField { return []invField{{t, tag}} }
 }
@@ -111,6 +121,20 @@ func invalidClasses() []invClass {
 	add("syntax:struct-trailing", reflect.TypeOf(&plainS{}), "1,default,plainS plainS")
 	add("syntax:struct-bad-qualifier", reflect.TypeOf(&plainS{}), "1,default,pkg..plainS")
 	add("syntax:struct-qualifier-number", reflect.TypeOf(&plainS{}), "1,default,pkg.1")
+	// recursive container types, annotation omitted (legal for maps): infinitely nested map<..map<..>>
+	add("recursive:map-noann", reflect.TypeOf(recMap(nil)), "1,default")
+	add("recursive:map-idonly", reflect.TypeOf(recMap(nil)), "1")
+	cs = append(cs, invClass{Name: "recursive:map-thrift-tag", Fields: one(reflect.TypeOf(recMap(nil)), `thrift:"T,1,optional"`)})
+	add("recursive:map-of-map-noann", reflect.TypeOf(recKeyless(nil)), "1,default")
+	// annotations contradicting an anonymous struct
+	anon := reflect.TypeOf(struct {
+		A int32 `frugal:"1,default,i32"`
+	}{})
+	add("contradict:anon-struct-as-i32", anon, "1,default,i32")
+	add("contradict:anon-struct-as-string", reflect.PointerTo(anon), "1,optional,string")
+	add("contradict:anon-struct-list-as-list-i32", reflect.SliceOf(anon), "1,default,list<i32>")
+	add("contradict:anon-struct-map-value-as-binary", reflect.MapOf(tStr, reflect.PointerTo(anon)), "1,default,map<string:binary>")
+	add("contradict:anon-struct-as-map", anon, "1,default,map")
 	// invalid map keys
 	add("mapkey:struct-by-value", reflect.TypeOf(map[plainS]int32(nil)), "1,default,map<plainS:i32>")
 	add("mapkey:pointer-to-scalar", reflect.TypeOf(map[*int32]int32(nil)), "1,default,map<i32:i32>")
